@@ -50,10 +50,12 @@ def recip_value(r, binding, dest=None):
     return {'own': OWN[binding][0], 'entity': SP_X, 'foreign': 'https://evil.example/acs', None: None}[r]
 
 
-def sp_for(allow, regex):
-    k = (allow, regex)
+def sp_for(allow, regex, unsigned=False):
+    k = (allow, regex) if not unsigned else (allow, regex, 'unsigned')
     if k not in _sp:
         opts = {'allow_unsolicited': allow}
+        if unsigned:
+            opts['want_response_signed'] = False     # over SOAP the documents are unsigned (the reader re-serialises the body)
         if regex:
             opts['valid_destination_regex'] = REGEX
         _sp[k] = world.make_sp(TMP[0], acs=ACS_ALL, **opts)
@@ -62,7 +64,7 @@ def sp_for(allow, regex):
 
 def docs(thorough):
     out = []
-    bindings = (BINDING_HTTP_POST, BINDING_ARTIFACT) if not thorough else (BINDING_HTTP_POST, BINDING_HTTP_REDIRECT, BINDING_SOAP, BINDING_ARTIFACT)
+    bindings = (BINDING_HTTP_POST, BINDING_ARTIFACT, BINDING_SOAP) if not thorough else (BINDING_HTTP_POST, BINDING_HTTP_REDIRECT, BINDING_SOAP, BINDING_ARTIFACT)
     for binding in bindings:
         for enc in (False, True):
             for irt, sirt, d, a, r in itertools.product(IRT, SCD_IRT, DEST, AUD, RECIP):
@@ -110,7 +112,7 @@ def build(doc):
             confs.append(forge.confirmation(now, irt=s, recipient=recip_value(doc['recip'], b, doc['dest'])))
     a = dict(confirmations=confs, audiences=AUD[doc['aud']])
     r = dict(irt=doc['irt'], dest=dest_value(doc['dest'], b))
-    return forge.build(now, resp=r, assertions=[a], sign_resp='idpA', encrypt='spXenc1' if doc['enc'] else None)
+    return forge.build(now, resp=r, assertions=[a], sign_resp=None if b == BINDING_SOAP else 'idpA', encrypt='spXenc1' if doc['enc'] else None)
 
 
 def required_reject(doc, allow, conv, regex):
@@ -148,7 +150,7 @@ def evaluate(doc):
     for allow, conv, regex in itertools.product((False, True), (False, True, 'partial'), (False, True)):
         if doc.get('prime'):
             _sp.pop((allow, regex), None)
-        sp = sp_for(allow, regex)
+        sp = sp_for(allow, regex, unsigned=(doc['binding'] == BINDING_SOAP))
         if doc.get('prime'):
             pd = dict(binding=doc['prime'], enc=False, irt='req1', scd=['req1'], dest='own', aud='me', recip='own')
             first = oracle.accept_response(sp, build(pd), binding=doc['prime'], outstanding=OUTSTANDING)
@@ -161,7 +163,8 @@ def evaluate(doc):
                                      conv_info=CONV[conv])
         why = required_reject(doc, allow, conv, regex) if obs['accept'] else []
         cf = None
-        if obs['accept'] and doc['irt'] in OUTSTANDING and not why:
+        if obs['accept'] and doc['irt'] in OUTSTANDING and not why and doc['binding'] != BINDING_SOAP:
+            # (over the synchronous binding no return address is kept: not part of the statement)
             if obs['identity']['came_from'] != ovals[doc['irt']]:
                 cf = 'came_from-is-not-the-matched-requests'
         out.append({'allow': allow, 'conv': conv, 'regex': regex, 'accept': obs['accept'], 'exc': obs.get('exc'),
